@@ -381,6 +381,14 @@ pub fn jitter() {
         cell.set(state);
         state
     });
+    if cfg!(miri) {
+        // under the interpreter wall-clock spins are meaningless and slow: a yield is a scheduling
+        // point for Miri's own (seeded) scheduler
+        if rand % 2 == 0 {
+            thread::yield_now();
+        }
+        return;
+    }
     match rand % 64 {
         0..=23 => {}
         24..=51 => thread::yield_now(),
@@ -414,6 +422,12 @@ pub fn jitter_held() {
         cell.set(state);
         state
     });
+    if cfg!(miri) {
+        if rand % 2 == 0 {
+            thread::yield_now();
+        }
+        return;
+    }
     match rand % 16 {
         0..=7 => {}
         8..=11 => thread::yield_now(),
